@@ -40,7 +40,7 @@ func (c *c07) Phases(tier string) []PhaseSpec {
 	if tier == "thorough" {
 		return []PhaseSpec{
 			{Name: "reader", Runs: 400000, Note: "seek/read histories vs byte-slice model"},
-			{Name: "engine", Runs: 60000, Note: "RunFiles(NOTHING) vs Run(string)"},
+			{Name: "engine", Runs: 40000, Note: "RunFiles(NOTHING) vs Run(string)"},
 			{Name: "big", Runs: 0, Sweep: true, Note: "example programs on the example files"},
 		}
 	}
